@@ -14,6 +14,7 @@ import Driver.ProcStack
 import Driver.Comms
 import Driver.Status
 import Driver.PlainRestore
+import Driver.PMRestore
 
 /-- `pmodel <component>`: line-protocol driver over the executable model definitions. -/
 def main (args : List String) : IO UInt32 := do
@@ -32,7 +33,8 @@ def main (args : List String) : IO UInt32 := do
   | ["persist"] => DrvPersist.main; return 0
   | ["restore"] => DrvPersist.mainRestore; return 0
   | ["restoreplain"] => DrvPlainRestore.main; return 0
+  | ["pmr"] => DrvPMRestore.main; return 0
   | ["procstack"] => DrvProcStack.main; return 0
   | ["comms"] => DrvComms.main; return 0
   | ["status"] => DrvStatus.main; return 0
-  | _ => IO.eprintln "usage: pmodel <comms|expose|fault|futures|launcher|outline|persist|persister|pm|pml|ports|portsout|procstack|restore|restoreplain|savable|status>"; return 2
+  | _ => IO.eprintln "usage: pmodel <comms|expose|fault|futures|launcher|outline|persist|persister|pm|pml|pmr|ports|portsout|procstack|restore|restoreplain|savable|status>"; return 2
